@@ -61,9 +61,9 @@ class Heap:
         cx.oblige(f'no-raise.AttributeError(None.{name})@L{lineno}', ref != 0, 'no-raise', lineno)
         if f.guard is not None:
             cx.oblige(f'no-raise.AttributeError(unset {name})@L{lineno}', f.guard(self, ref), 'no-raise', lineno)
-        v = z3.Select(self.arr[name], ref)
+        v = z3.simplify(z3.Select(self.arr[name], ref))
         if f.optional:
-            return OptVal(z3.Select(self.arr[name + '#none'], ref), SV(v))
+            return OptVal(z3.simplify(z3.Select(self.arr[name + '#none'], ref)), SV(v))
         if f.ref:
             return SymRef(v, kind)
         if f.sort == B:
